@@ -30,11 +30,15 @@ def bodies():
         "if": lambda k0: (f'<if test="gt($i, [[{k0}]])"><rect xy="$i 0" wh="1"/></if><rect xy="0 $i" wh="1"/>', [(1, *V)], ""),
         "nested": lambda k0: (f'<loop count="2" loop-var="j"><rect xy="{{{{$i + $j}}}} [[{k0}]]" wh="1"/></loop>', [(3, *V)], ""),
         "two": lambda k0: (f'<rect xy="$i [[{k0}]]" wh="2"/><rect xy="^|v [[{k0 + 1}]]" wh="2 1"/>', [(3, *V), (1, *V)], ""),
+        # the body writes the loop variable itself: the next pass starts from the loop's own counter all the same
+        "selfassign": lambda k0: (f'<rect xy="$i [[{k0}]]" wh="1"/><var i="{{{{$i * 10 + 5}}}}"/><rect xy="$i 7" wh="1"/>', [(3, *V)], ""),
+        "shadowloop": lambda k0: (f'<rect xy="$i [[{k0}]]" wh="1"/><loop count="2" loop-var="i"><rect xy="{{{{$i + 20}}}} 3" wh="1"/></loop><rect xy="$i 9" wh="1"/>', [(3, *V)], ""),
+        "shadowfor": lambda k0: (f'<rect xy="$i [[{k0}]]" wh="1"/><for var="i" data="40, 50"><rect xy="$i 3" wh="1"/></for>', [(3, *V)], ""),
         "line": lambda k0: (f'<line xy1="$i 0" xy2="[[{k0}]] {{{{$i + 1}}}}"/>', [(9, *V)], ""),
     }
 
 
-def gen_body(gseed):
+def gen_body(gseed, allow_self=True):
     """a seeded random body of 1-4 items drawn from the element vocabulary; returns fn(k0) -> (markup, varspecs, prelude)"""
     def make(k0):
         rnd = random.Random(31337 + gseed)
@@ -46,11 +50,17 @@ def gen_body(gseed):
         prelude = ('<specs><rect id="tpl" wh="$w 2"/><circle id="tpc" r="$w"/></specs><defs><rect id="u" wh="2 1"/></defs><rect id="fix" xy="-40 -40" wh="3 4"/>')
 
         def item(depth):
-            k = rnd.choice(["rect", "rect", "circle-rel", "rect-rel", "ellipse", "text", "shapetext", "acc", "if", "loop", "g", "reuse", "reusec", "polyline", "path", "use", "surround", "line", "point", "box", "relsize"])
+            k = rnd.choice(["rect", "rect", "circle-rel", "rect-rel", "ellipse", "text", "shapetext", "acc", "if", "loop", "g", "reuse", "reusec", "polyline", "path", "use", "surround", "line", "point", "box", "relsize", "selfassign", "shadowloop"])
             if k in ("if", "loop", "g") and depth >= 2:
+                k = "rect"
+            if k in ("selfassign", "shadowloop") and not allow_self:
                 k = "rect"
             if k == "rect":
                 return f'<rect xy="{{{{$i * 2}}}} {nv(5, V)}" wh="{nv(4, VS)} 3"/>'
+            if k == "selfassign":
+                return f'<var i="{{{{$i * 2 + {nv(1, V)}}}}}"/><rect xy="$i 7" wh="1"/>'
+            if k == "shadowloop":
+                return f'<loop count="2" loop-var="i"><rect xy="{{{{$i + 20}}}} {nv(3, V)}" wh="1"/></loop>'
             if k == "circle-rel":
                 return f'<circle cxy="^@{rnd.choice(["br", "t", "c", "l"])}" r="{nv(2, VS)}"/>'
             if k == "rect-rel":
@@ -120,6 +130,8 @@ def templates(tier, seed):
                         continue
                     tds.append(dict(fam="count", body=b, n=n, lv=lv, where=where))
         for k in (0, 1, 2, 3):
+            if b in ("selfassign", "shadowloop", "shadowfor"):
+                continue    # (the while / until templates use $i as their own counter)
             tds.append(dict(fam="while", body=b, k=k, where="top"))
             if k >= 1:
                 tds.append(dict(fam="until", body=b, k=k, where="top"))
@@ -189,7 +201,7 @@ def build(td, wrong=False):
             obls = [Obl("rendered-iff-test-nonzero", not_(test) if taken else test)]
             return obls + compare_outputs(o0, o1 if taken else o2, wrong=wrong)
         return Template(f"if/{td['body']}/{tform}", [d0, d1, d2], vars_, check_if, family="if", role="C16/if", cap=4)
-    bfn = gen_body(int(td["body"][3:])) if td["body"].startswith("gen") else bodies()[td["body"]]
+    bfn = gen_body(int(td["body"][3:]), allow_self=fam in ("count", "for")) if td["body"].startswith("gen") else bodies()[td["body"]]
     kb = alloc([])
     body, bvars, pre = bfn(len(vars_))
     vars_.extend(bvars)
